@@ -76,6 +76,8 @@ w("35", "C06", "lone sign as a slice bound raises ValueError", {"kind": "query",
 jp("36", "C01", "descendant shorthand for a name starting with _ rejected", Q(["desc", [["name", "_a"]]]), {"_a": 1, "b": {"_a": 2}}, "$.._a")
 w("37", "C11", "compound query cannot read a file object (read once per operand)", {"text": "$.a | $.b", "doc": {"a": 1, "b": 2}, "comp": [Q(N("a")), ["|", Q(N("b"))]]})
 w("39", "C11", "lazy intersections all filter by the last operand (late-bound generator variable)", {"text": "$.a & $.b & $.c", "doc": {"a": "x", "b": "y", "c": "x"}, "comp": [Q(N("a")), ["&", Q(N("b"))], ["&", Q(N("c"))]]})
+w("40", "C10", "a comparison used as a comparison operand loses its parentheses", {"text": "$[?(@.a == 1) == true]", "docs": [[{"a": 1}, {"a": False}, {"a": True}, {"a": 2}]], "class": "witness"})
+w("40", "C10", "a negated comparison used as a comparison operand loses its grouping", {"text": "$[?(@.a < 2) in [true]]", "docs": [[{"a": 1}, {"a": False}, {"a": True}, {"a": 2}]], "class": "witness"})
 w("38", "C06", "patch target with a key marker raises KeyError", {"kind": "patch", "ops": [{"op": "remove", "path": "/#a"}], "docs": [{"a": 1}]})
 w("38", "C06", "patch target with an index marker raises ValueError", {"kind": "patch", "ops": [{"op": "add", "path": "/b/#0", "value": 1}], "docs": [{"b": [1, 2]}]})
 
